@@ -5,12 +5,15 @@
 EXTENDS Naturals, Sequences, TLC, Json, CSV
 
 Locs == {"query", "header", "cookie", "path", "body", "bodyitem", "respbody", "respheader"}
-Kws  == {"maxLength", "pattern", "enum", "type", "minLength", "format"}
+Kws  == {"maxLength", "pattern", "enum", "type", "minLength", "format",
+         \* failures of a composition / a structural keyword: the marker sits in a value that is rejected as a whole
+         "oneOf", "anyOf", "not", "uniqueItems", "required", "additionalProperties", "maxItems"}
+JsonOnly == {"type", "oneOf", "anyOf", "not", "uniqueItems", "required", "additionalProperties", "maxItems"}
 Hides == {"custom", "nodetails"}
 
 (* "type" needs a JSON carrier (a string where an integer is declared); in a parameter or   *)
 (* header the same text is a parse error, not a schema error, and is outside the statement. *)
-Legal(c) == c.kw = "type" => c.loc \in {"body", "bodyitem", "respbody"}
+Legal(c) == c.kw \in JsonOnly => c.loc \in {"body", "bodyitem", "respbody"}
 
 VARIABLE c
 Init == c \in {x \in [loc : Locs, kw : Kws, multi : BOOLEAN, hide : Hides] : Legal(x)}
